@@ -149,6 +149,16 @@ CHECKS = {
              "zip payloads, pickle.loads and torch.storage._load_from_bytes). Known finding: PyTorch containers nested through "
              "torch.storage._load_from_bytes are not mediated. Trusted: CPython's Unpickler.load resolves every global through self.find_class.",
         ref="§C07"),
+    "C05": dict(
+        text="Proof per data-building opcode, for every symbolic stack and memo: the real run() pushes - or updates in place - the display node "
+             "whose Python meaning is what the VM builds from the same operands (children are the operand nodes in VM order, key / value pairing "
+             "by EVENS / ODDS with loop invariants for DICT and SETITEMS, constants hold the argument), in-place opcodes return the very node "
+             "they were given (APPEND(S), ADDITEMS, SETITEM(S) on displays) and the memo hands back the node it was given (sharing by reference); "
+             "node invariant dict_lists_distinct established at EMPTY_DICT / DICT and closed by two source scans.",
+        note="Calls, BUILD, imports and persistent loads are C03's anchoring; the meaning of Python displays / assignments and ast.unparse are "
+             "trusted. The end-to-end claim (executed source == VM value; plain data == original object, protocols 0-5) is the bounded companion "
+             "replay/value_diff.py. One defect repaired (SETITEM(S) lost aliasing), one known finding (FROZENSET source text).",
+        ref="§C05"),
     "C04": dict(
         text="Proof of the analysis layer for an arbitrary witness: over the module a pickle decompiles to (what ASTProperties collects, as ghost "
              "functions of the opcode sequence) the real NonStandardImports / UnsafeImportsML / BadCalls / OvertlyBadEvals.analyze are verified "
